@@ -307,6 +307,9 @@ func (g *c15gen) invalidValue(kind string) (string, bool) {
 		return pick("abc", "1e400", "--1", "")
 	case "bool":
 		return pick("yes", "no", "2", "", "tru", "on")
+	case "dir":
+		// directories that cannot be created/used: below a regular file, a path component beyond NAME_MAX, a NUL byte
+		return pick(filepath.Join(g.scratch, "notadir", "sub"), filepath.Join(g.scratch, strings.Repeat("n", 300)), filepath.Join(g.scratch, "d1")+"\x00x", filepath.Join(g.scratch, "notadir"))
 	case "level":
 		return pick("LOUD", "INFO~LOUD", "~", "warn~")
 	case "policy":
@@ -914,6 +917,7 @@ func c15Worker(w *W) {
 	for _, d := range []string{"d1", "d2", "d3"} {
 		_ = os.MkdirAll(filepath.Join(scratch, d), 0755)
 	}
+	_ = os.WriteFile(filepath.Join(scratch, "notadir"), []byte("a regular file\n"), 0644)
 	_ = os.MkdirAll(filepath.Join(w.Spec.Dir, "logs"), 0755) // the documented default fileDir, relative to the cwd
 	defer os.RemoveAll(scratch)
 	n := int(w.Spec.N)
